@@ -1,4 +1,4 @@
-Require Import Extraction ExtrOcamlBasic.
-Require Import Base.Prelude Base.XVal C06.Model.
+Require Import Extraction ExtrOcamlBasic ExtrOCamlFloats ExtrOCamlInt63.
+Require Import Base.Prelude Base.XVal C06.Model C06.Bearing C06.Metric.
 Extraction Language OCaml.
-Extraction "model.ml" run_model brute key_euclid key_manhattan.
+Extraction "model.ml" run_model brute key_euclid key_manhattan metric_of_key run_model_full calc_direction gc_key.
